@@ -5,8 +5,9 @@
    Statements only; proofs are in Proofs/Values_enc_proofs.v.
 
    Full statement (C24_full): for every value, any fuel and any library oracle, the encoded form is marshalable
-   and encode (decode (encode v)) = encode v.  The unchanged code violates it in two ways (witnesses below); the
-   positive theorems exclude exactly these. *)
+   and encode (decode (encode v)) = encode v.  Marshal safety holds modulo the pass-through fields (the dict-key
+   defect was repaired in /repo f01e3d4); the round trip is violated at the end of the calendar (witness below)
+   and C24_encode_decode_encode_partial excludes exactly that. *)
 From Coq Require Import ZArith List Bool String.
 Import ListNotations.
 Require Import Grist.Lib.PyFloat Grist.Model.Values Grist.Proofs.Values_enc_proofs Grist.Proofs.Values_depth_proofs.
@@ -19,19 +20,21 @@ Definition C24_full : Prop := forall orc fuel v,
 (* ---- marshal safety --------------------------------------------------------------------------- *)
 
 (* For every fuel and every value: if, at every node encode_object visits, the fields it passes through
-   unencoded are marshal-safe (node_wf: error name/message/details, stub fields, UnmarshallableValue.value_repr --
-   str/None from the engine, marshalled data from decode_object) and no dict key is an instance of a str
-   subclass (node_keys), then the encoded form contains only exact None/bool/int/float/str, lists, tuples and
-   dicts with exact-str keys. *)
-Theorem C24_encode_marshalable_partial : forall orc fuel v,
+   unencoded are marshal-safe (node_ok = node_wf: error name/message/details, stub fields,
+   UnmarshallableValue.value_repr -- str/None from the engine, marshalled data from decode_object), then the
+   encoded form contains only exact None/bool/int/float/str, lists, tuples and dicts with exact-str keys.
+   This is the full statement modulo those pass-through fields. *)
+Theorem C24_encode_marshalable : forall orc fuel v,
   vforall node_ok v = true -> marshalableb (encode_f orc fuel v) = true.
 Proof. exact encode_marshalable. Qed.
 
-(* {S('a'): 1} with S a subclass of str: the key passes isinstance(key, str) and goes into the encoded dict as it
-   is; marshal.dumps refuses it. *)
-Theorem C24_refuted_strsub_key : forall orc fuel,
-  marshalableb (encode_f orc (S fuel) (PDict [(PStr true (Str "a"), PInt false 1)])) = false.
-Proof. reflexivity. Qed.
+(* Regression (fixed in /repo f01e3d4; before it the key object itself went into the encoded dict and
+   marshal.dumps refused it): {S('a'): 1} with S a subclass of str encodes with the exact str key 'a'. *)
+Example C24_regression_strsub_key : forall orc fuel,
+  encode_f orc (S fuel) (PDict [(PStr true (Str "a"), PInt false 1)]) =
+    tag "O" [PDict [(PStr false (Str "a"), PInt false 1)]] /\
+  marshalableb (encode_f orc (S fuel) (PDict [(PStr true (Str "a"), PInt false 1)])) = true.
+Proof. intros orc [|n]; split; reflexivity. Qed.
 
 (* actions.get_action_repr: record actions encode their cell values, other actions pass their fields through *)
 Theorem C24_action_repr_marshalable : forall orc fuel a,
